@@ -200,6 +200,30 @@ def stokes_green_cases(slot: int, mono: Any, mname: str) -> list[tuple[str, str]
                 f"{short(-circ)}"))
     if trig:
         return out
+    # triangle: the inner limits depend on the outer parameter (surface given as a graph over a
+    # region that is not a rectangle); tilted, so every component of the curl is seen
+    F3t = [sp.S.Zero] * 3
+    F3t[slot] = mono
+    fld3t = lib_field(F3t, cs)
+    tri = [u, v, c * (1 - u / a - v / b)]
+    tag = f"triangle:F{slot}={mname}"
+    sides = [([a * (1 - t), b * t, 0], (t, 0, 1)), ([0, b * (1 - t), c * t], (t, 0, 1)),
+        ([a * t, 0, c * (1 - t)], (t, 0, 1))]
+    circ = sum(call(A.circulation_along_curve, fld3t, cv, lm) for cv, lm in sides)
+    circ_s = call(A.circulation_along_surface_boundary, fld3t, tri, (u, 0, a * (1 - v / b)), (v, 0,
+        b))
+    out.append((f"stokes:{tag}", "" if equal(circ, circ_s) else
+        f"circulation along the three sides {short(circ)} != curl over the triangle {short(circ_s)}"))
+    want = sum(ref_line(F3t, cv, lm) for cv, lm in sides)
+    out.append((f"circulation=ref:{tag}", "" if equal(circ, want) else
+        f"circulation {short(circ)}, closed form {short(want)}"))
+    flux_t = call(A.flux_across_surface, fld3t, tri, (u, 0, a * (1 - v / b)), (v, 0, b))
+    nrm = [c / a, c / b, 1]  # d/du x d/dv of the graph
+    wantf = sp.integrate(sp.integrate(sum(f.subs({x: u, y: v, z: tri[2]}, simultaneous=True) * n_
+        for f, n_ in zip(F3t, nrm)), (u, 0, a * (1 - v / b))), (v, 0, b))
+    out.append((f"flux=ref:{tag}", "" if equal(flux_t, wantf) else
+        f"flux through the triangle {short(flux_t)}, closed form {short(wantf)}"))
+    out.append((f"clean:{tag}", clean(circ_s, cs) or clean(flux_t, cs)))
     # paraboloid cap: 3-component field
     F3 = [sp.S.Zero] * 3
     F3[slot] = mono
